@@ -117,6 +117,9 @@ def complex_certificates(ctx, N):
                 return
 
 
+ILL_CONDITIONED = [(2.0, 2, 3, 5), (4.0, 1, 4, 4), (1.3, 1, 2, 4), (1.6, 2, 2, 4), (2.0, 1, 6, 4), (1.2, 1, 1, 3), (3.0, 2, 2, 4), (1.5, 1, 1, 5)]
+
+
 def search(ctx, N, complex_too=True):
     """Property-level sweep on the implementation: exact rationals as oracle."""
     from numdifftools.extrapolation import Richardson
@@ -135,6 +138,12 @@ def search(ctx, N, complex_too=True):
         elif k % 5 == 4:
             ratio_given, ratio_kind = np.float32(ratio), 'np.float32'
             ratio = float(ratio_given)
+        if k < len(ILL_CONDITIONED):
+            # a fixed set of moderately ill-conditioned r-matrices first (smallest / largest singular value 1e-6 .. 1e-10, exact weights of
+            # moderate size): the pseudo-inverse must still resolve them -- only a numerically SINGULAR matrix excuses other weights
+            ratio, step, order, T = ILL_CONDITIONED[k]
+            ratio_given, ratio_kind = ratio, 'float'
+            length = max(length, T + 2)
         R = Richardson(step_ratio=ratio_given, step=step, order=order, num_terms=T)
         reconfigured = None
         if k % 4 == 2:
